@@ -492,3 +492,64 @@ async fn standin_tcp_unusable_candidate() {
         assert_eq!(stream.peer_addr().unwrap(), v4, "v6_first={v6_first} sequential={sequential}");
     }
 }
+
+/// A loopback address on which connection attempts hang: a listener that never accepts and whose accept queue is
+/// full (Linux drops further SYNs while the queue is full; the client keeps retransmitting).  The returned values
+/// keep it that way.  The queue counts as full once one probe did not complete within 600 ms (a loopback connect
+/// that CAN complete does so inside the connect call itself, whatever the machine load).
+fn hanging_listener() -> (socket2::Socket, Vec<std::net::TcpStream>, std::net::SocketAddr) {
+    use socket2::{Domain, Socket, Type};
+    use std::net::{Ipv4Addr, SocketAddr};
+    let socket = Socket::new(Domain::IPV4, Type::STREAM, None).unwrap();
+    socket.bind(&SocketAddr::from((Ipv4Addr::LOCALHOST, 0)).into()).unwrap();
+    socket.listen(1).unwrap();
+    let addr = socket.local_addr().unwrap().as_socket().unwrap();
+    let mut fillers = Vec::new();
+    loop {
+        match std::net::TcpStream::connect_timeout(&addr, Duration::from_millis(600)) {
+            Ok(stream) => fillers.push(stream),
+            Err(e) if e.kind() == std::io::ErrorKind::TimedOut => break,
+            Err(e) => panic!("unexpected error while filling the accept queue: {e}"),
+        }
+        assert!(fillers.len() < 1024, "the accept queue never filled up");
+    }
+    (socket, fillers, addr)
+}
+
+/// A.tcp.connecting [C10], second half: connecting succeeds whenever some candidate, once attempted, accepts before
+/// the configured OVERALL deadline - and none is configured here (`happy_eyeballs_timeout: None`).  The per-attempt
+/// `connect_timeout` only ends the attempt it belongs to: candidates that hang until it fires are failed attempts,
+/// after which the next candidate is tried; the last one accepts at once, so the connect must succeed.
+#[tokio::test(flavor = "multi_thread", worker_threads = 2)]
+async fn standin_tcp_hanging_candidate() {
+    use crate::client::conn::transport::tcp::{TcpTransport, TcpTransportConfig};
+    // the blocking probes run off the runtime threads
+    let (_hole, _fillers, hole) = tokio::task::spawn_blocking(hanging_listener).await.unwrap();
+    let per_attempt = Duration::from_millis(400);
+
+    let scenario = |hanging: usize| async move {
+        let listener = tokio::net::TcpListener::bind("127.0.0.1:0").await.unwrap();
+        let good = listener.local_addr().unwrap();
+        let mut config = TcpTransportConfig::default();
+        config.happy_eyeballs_timeout = None; // no overall deadline, candidates strictly one after the other
+        config.happy_eyeballs_concurrency = Some(1);
+        config.connect_timeout = Some(per_attempt);
+        let transport: TcpTransport = TcpTransport::builder().with_config(config).with_gai_resolver().build();
+        let mut candidates = vec![hole; hanging];
+        candidates.push(good);
+        let t0 = std::time::Instant::now();
+        let result = tokio::time::timeout(Duration::from_secs(20), transport.connect_to_addrs(candidates)).await;
+        let took = t0.elapsed();
+        let stream = result
+            .unwrap_or_else(|_| panic!("{hanging} hanging candidate(s) + 1 accepting: connect did not finish within 20 s"))
+            .unwrap_or_else(|e| panic!("{hanging} hanging candidate(s), then one that accepts, no overall deadline configured: connecting must succeed, but failed after {took:?} with {e:?}"));
+        assert_eq!(stream.peer_addr().unwrap(), good, "{hanging} hanging candidate(s): connected to the wrong candidate");
+        // the accepting candidate is only reached after every hanging attempt has run into its own time-out
+        // (timers never fire early, so this bound is one-sided against machine load)
+        assert!(took >= per_attempt * hanging as u32, "{hanging} hanging candidate(s): connected after {took:?} - the hanging candidate did not hang, the scenario is void");
+        drop(listener);
+    };
+    // both scenarios at the same time: one hanging candidate; two of them (the overall time then exceeds any single
+    // attempt's time-out by a whole attempt)
+    tokio::join!(scenario(1), scenario(2));
+}
